@@ -39,8 +39,8 @@ def prop(case):
     c = b.c
     sim = LogicSim(c, sims, m=2, c_reuse=case['c_reuse'], strip_forks=case['strip_forks'])
     s_len = len(c.s_nodes)
-    if sim.s.shape[1] != s_len:
-        raise Violation(f's has {sim.s.shape[1]} rows, circuit has {s_len} ports+state elements')
+    if sim.s.shape != (2, s_len, 3, (sims + 7) // 8):
+        raise Violation(f's has shape {sim.s.shape}, expected (2, {s_len} ports+state elements, 3, ceil({sims}/8))')
     pi_pos = [b.s_pos(n) for n in b.pi]
     po_pos = [b.s_pos(n) for n in b.po]
     st_pos = [b.s_pos(n) for n in b.st]
